@@ -263,7 +263,7 @@ def spec_list_request(case):
     return [4] + e_fmt(case['s'], case['nw'], case['nf']) + [RMODES.index(case['r']), OMODES.index(case['o'])] + \
            e_list([Fraction(v) for v in case['vals']], e_dy)
 
-def check_store_cases(cases, res, stratum, pid, huge=False):
+def check_store_cases(cases, res, stratum, pid, huge=False, keep_array=False):
     """run implementation, Spec and model on the cases; record failures"""
     impl_out = [run_impl_store(c) for c in cases]
     reqs = []
@@ -286,7 +286,8 @@ def check_store_cases(cases, res, stratum, pid, huge=False):
             continue
         if io['codes'] != spec_codes:
             j = next(k for k in range(len(spec_codes)) if k >= len(io['codes']) or io['codes'][k] != spec_codes[k])
-            one = dict(small); one['vals'] = [c['vals'][j]]; one['index_in_original'] = j
+            one = dict(small); one['index_in_original'] = j
+            if not (huge or keep_array): one['vals'] = [c['vals'][j]]          # (with a huge neighbour the whole array is the failing input)
             res.fail(one, pid + ': stored code differs from OVERFLOW(ROUND(v*2^n_frac))', expected=spec_codes[j], got=io['codes'][j] if j < len(io['codes']) else None)
             continue
         want_back = [Fraction(cd) / Fraction(2) ** nf for cd in io['codes']]
